@@ -20,7 +20,11 @@ RULE = ('one random model configuration per case (class = which facet is probed)
         'sub-pixel centres incl. exact 0 / 0.5, axis ratios 0.2..5, rotations incl. exact multiples of 90 deg, Moffat '
         'beta 1.05..12, Airy radius 0.2..20; ImagePSF/GriddedPSFModel with random non-square arrays, scalar and (y,x) '
         'oversampling, non-central origins, irregular shuffled grids, evaluation histories with copy/deepcopy. '
-        'non-trivial = the case evaluated >= 1 reference comparison on a non-degenerate configuration (PRF/PSF: '
+        'Generic axes drawn independently of the class (about half of the cases plain): flux / array magnitude 2**-60..2**40 '
+        'and 1e-20..1e10, centres up to 2**20 px from the origin, parameters as numpy scalars / 0-d arrays / Quantities (one '
+        'unit, mixed equivalent units for centre / size / coordinates, Quantity flux, angle in deg / rad / arcmin), '
+        'coordinates and data arrays in Fortran / strided / offset / big-endian / float32 / integer / list form, '
+        'elongated arrays, wide and tall grids, constant images, empty coordinate arrays. non-trivial = the case evaluated >= 1 reference comparison on a non-degenerate configuration (PRF/PSF: '
         'sub-pixel centre not (0,0); image models: >= 1 interior and >= 1 outside point or a history of >= 3 steps); '
         'distinct by digest of the generated parameters/arrays')
 CLASSES = ['prf_sum', 'prf_value', 'psf_integral', 'shape', 'consistency', 'imagepsf', 'imagepsf_hist',
@@ -87,7 +91,176 @@ def _theta(rng):
 
 
 def _flux(rng):
-    return _logu(rng, 1e-3, 1e6)
+    """About half 'plain' magnitudes, the rest powers of two 2**-60..2**40 and decimal 1e-20..1e10."""
+    k = rng.random()
+    if k < 0.55:
+        return _logu(rng, 1e-3, 1e6)
+    if k < 0.8:
+        return float(2.0 ** int(rng.integers(-60, 41)))
+    return float(10.0 ** rng.uniform(-20, 10))
+
+
+def _far(rng, v, nmax=2 ** 20):
+    """Move a coordinate far from the origin by an integer number of pixels (sub-pixel phase kept exactly when it is
+    dyadic)."""
+    n = int(2 ** rng.uniform(8, np.log2(nmax))) * (1 if rng.random() < 0.5 else -1)
+    return float(n + v)
+
+
+# ----------------------------------------------------------------------------------------
+# call forms (generic axes): how parameters and coordinates are handed to the model
+# ----------------------------------------------------------------------------------------
+LENGTH_UNITS = [('cm', 'mm'), ('arcsec', 'arcmin'), ('pix', 'pix'), ('m', 'km'), ('deg', 'arcsec')]
+SIZE_KEYS = ('fwhm', 'sigma', 'x_fwhm', 'y_fwhm', 'alpha', 'radius')
+
+
+def _draw_form(case, kind, quantity='all', layouts=True):
+    """Draw the parameter call form and the coordinate layout independently; about half of the cases stay plain.
+    quantity: 'all' | 'same' (one unit for everything, no conversion: exact-arithmetic classes) | 'none'."""
+    rng = case.rng
+    f = dict(pform='plain', cform='plain')
+    k = rng.random()
+    if k < 0.5:
+        pass
+    elif k < 0.6:
+        f['pform'] = 'npscalar'
+    elif k < 0.7:
+        f['pform'] = 'zerod'
+    elif quantity != 'none':
+        forms = ['q_same', 'q_same_flux'] + (['q_mixed', 'q_mixed_flux', 'q_coords_other'] if quantity == 'all' else [])
+        f['pform'] = forms[int(rng.integers(0, len(forms)))]
+        base, other = LENGTH_UNITS[int(rng.integers(0, len(LENGTH_UNITS)))]
+        if rng.random() < 0.5 and base != other:
+            base, other = other, base
+        f['base'], f['other'] = base, other
+        f['funit'] = ['Jy', 'mJy', 'electron', 'adu'][int(rng.integers(0, 4))]
+        f['theta_unit'] = ['deg', 'rad', 'arcmin', None][int(rng.integers(0, 4))]
+        prf = kind in PRFS
+        mixed = f['pform'] in ('q_mixed', 'q_mixed_flux', 'q_coords_other')
+        if prf:
+            # pixel-integrated models: the pixel is one unit of the centre / coordinate unit; with coordinates in
+            # another unit than the centre the documentation does not say which unit the pixel has -> not generated;
+            # the widths may come in any equivalent unit
+            if f['pform'] == 'q_coords_other':
+                f['pform'] = 'q_mixed'
+            f['centre_unit'] = f['coord_unit'] = base
+            f['size_unit'] = other if mixed else base
+        else:
+            # sampled models are normalised per squared unit of their size parameter: 'base' is that unit (integrals
+            # are taken in it); centre and evaluation coordinates may come in any equivalent unit
+            f['size_unit'] = base
+            f['centre_unit'] = other if (mixed and rng.random() < 0.6) else base
+            f['coord_unit'] = other if (f['pform'] == 'q_coords_other' or (mixed and rng.random() < 0.5)) else base
+    if layouts and rng.random() < 0.45:
+        f['cform'] = ['fortran', 'strided', 'bigendian', 'float32', 'int', 'list', 'offset'][int(rng.integers(0, 7))]
+    case.note('axis_callform_' + f['pform'])
+    case.note('axis_layout_' + f['cform'])
+    return f
+
+
+class _M:
+    """A model together with the form in which parameters / coordinates are handed over.  Calling it returns a
+    plain float ndarray (value in the flux unit, lengths understood in the base unit), whatever the form."""
+
+    def __init__(self, kind, p, form):
+        import astropy.units as u
+        import photutils.psf as P
+        self.kind, self.p, self.form = kind, dict(p), form or dict(pform='plain', cform='plain')
+        f = self.form
+        kw = {}
+        for k, v in p.items():
+            if f['pform'] == 'npscalar':
+                kw[k] = np.float64(v)
+            elif f['pform'] == 'zerod':
+                kw[k] = np.array(v, dtype=float)
+            elif f['pform'].startswith('q_'):
+                if k in ('x_0', 'y_0'):
+                    kw[k] = (v * u.Unit(f['base'])).to(u.Unit(f['centre_unit']))
+                elif k in SIZE_KEYS:
+                    kw[k] = (v * u.Unit(f['base'])).to(u.Unit(f['size_unit']))
+                elif k == 'theta':
+                    kw[k] = v if f['theta_unit'] is None else (v * u.deg).to(u.Unit(f['theta_unit']))
+                elif k == 'flux':
+                    kw[k] = v * u.Unit(f['funit']) if f['pform'].endswith('flux') else v
+                else:
+                    kw[k] = v
+            else:
+                kw[k] = v
+        self.model = getattr(P, kind)(**kw)
+        self.unit_checks = []
+
+    def __getattr__(self, name):
+        if name in ('model', 'form', 'kind', 'p', 'unit_checks'):
+            raise AttributeError(name)
+        return getattr(self.model, name)
+
+    def set_flux(self, value):
+        import astropy.units as u
+        f = self.form
+        self.model.flux = value * u.Unit(f['funit']) if f['pform'].endswith('flux') else value
+
+    def length(self, q):
+        """A derived length attribute (fwhm, sigma, ...) as a float in the base unit."""
+        import astropy.units as u
+        if hasattr(q, 'unit') and hasattr(q, 'to_value') and self.form['pform'].startswith('q_'):
+            return float(q.to_value(u.Unit(self.form['base'])))
+        return float(getattr(q, 'value', q))
+
+    def fluxval(self, q):
+        import astropy.units as u
+        if hasattr(q, 'to_value') and self.form['pform'].endswith('flux'):
+            return float(q.to_value(u.Unit(self.form['funit'])))
+        return float(getattr(q, 'value', q))
+
+    def __call__(self, x, y):
+        import astropy.units as u
+        f = self.form
+        x = np.asarray(x, float)
+        y = np.asarray(y, float)
+        shape = x.shape
+        xs, ys = _layout(x, f['cform']), _layout(y, f['cform'])
+        if f['pform'].startswith('q_'):
+            if f['cform'] == 'list':
+                xs, ys = np.asarray(xs, float), np.asarray(ys, float)
+            xs = (xs * u.Unit(f['base'])).to(u.Unit(f['coord_unit']))
+            ys = (ys * u.Unit(f['base'])).to(u.Unit(f['coord_unit']))
+        out = self.model(xs, ys)
+        if f['pform'].endswith('flux'):
+            ok = getattr(out, 'unit', None) == u.Unit(f['funit'])
+            self.unit_checks.append(bool(ok))
+            out = out.to_value(u.Unit(f['funit'])) if hasattr(out, 'to_value') else out
+        elif hasattr(out, 'unit'):
+            self.unit_checks.append(bool(out.unit == u.dimensionless_unscaled))
+            out = out.to_value(u.dimensionless_unscaled)
+        return np.asarray(out, float).reshape(shape)
+
+
+def _layout(a, cform):
+    """The same numbers in another memory layout / container (only where they are represented exactly)."""
+    if cform == 'plain' or a.ndim == 0:
+        return a
+    if cform == 'fortran':
+        b = a if a.ndim == 2 else a.reshape(-1, 1)
+        return np.asfortranarray(b).reshape(a.shape) if a.ndim != 2 else np.asfortranarray(b)
+    if cform == 'strided':
+        big = np.zeros(tuple(2 * n for n in a.shape), dtype=a.dtype)
+        big[(slice(None, None, 2),) * a.ndim] = a
+        return big[(slice(None, None, 2),) * a.ndim]
+    if cform == 'offset':
+        big = np.full(tuple(n + 3 for n in a.shape), np.nan)
+        big[(slice(2, -1),) * a.ndim] = a
+        return big[(slice(2, -1),) * a.ndim]
+    if cform == 'bigendian':
+        return a.astype('>f8')
+    if cform == 'float32':
+        b = a.astype(np.float32)
+        return b if np.array_equal(b.astype(float), a) else a
+    if cform == 'int':
+        b = a.astype(np.int64)
+        return b if np.array_equal(b.astype(float), a) else a
+    if cform == 'list':
+        return a.tolist() if a.ndim == 1 and a.size <= 400 else a
+    return a
 
 
 def _gen_params(rng, kind, wmax=12.0):
@@ -125,9 +298,13 @@ def _sigmas(kind, p):
     return p['radius'], p['radius']
 
 
-def _make(kind, p):
-    import photutils.psf as P
-    return getattr(P, kind)(**p)
+def _make(kind, p, form=None):
+    return _M(kind, p, form)
+
+
+def _unit_verdict(case, m, mech):
+    if m.unit_checks:
+        case.check(all(m.unit_checks), 'output_carries_flux_unit', mech, form=m.form['pform'])
 
 
 def _rotated(p):
@@ -154,18 +331,24 @@ def _case_prf_sum(case):
     # window: centre offset + the largest lattice shift used below (2) + half a pixel + 8.5 sigma
     # (a fixed margin of 4 px was too small for |x_0| ~ 3 together with the shifted lattice: the tail
     # beyond the window was 6e-8 of the flux in one thorough case - a harness error, not a library one)
-    half = int(np.ceil(max(abs(p['x_0']), abs(p['y_0'])) + 2.5
+    form = _draw_form(case, kind)
+    if rng.random() < 0.2:
+        p['x_0'], p['y_0'] = _far(rng, p['x_0']), _far(rng, p['y_0'])
+        case.note('axis_position_far_from_origin')
+    cx, cy = int(np.round(p['x_0'])), int(np.round(p['y_0']))
+    half = int(np.ceil(max(abs(p['x_0'] - cx), abs(p['y_0'] - cy)) + 2.5
                        + 8.5 * smax * (np.sqrt(2.0) if rot else 1.0)))
     half = max(half, 5)
-    case.params = dict(kind=kind, **p, half=half)
+    case.params = dict(kind=kind, **p, half=half, form=form)
     case.nontrivial = (p['x_0'], p['y_0']) != (0.0, 0.0)
-    m = _make(kind, p)
+    m = _make(kind, p, form)
     yy, xx = np.mgrid[-half:half + 1, -half:half + 1]
+    xx, yy = xx + cx, yy + cy
     vals = np.asarray(m(xx, yy), float)
     mech = _mech(kind, p, aliasing=aliasing)
     case.check(bool(np.all(vals >= 0)), 'nonnegative', mech, min=float(vals.min()))
     case.close(float(vals.sum()), p['flux'], 'prf_lattice_sum', rtol=1e-8, mech=mech,
-               params=p)
+               params=p, form=form)
     if not aliasing:
         case.dev('prf_lattice_sum[excluding rotated narrow GaussianPRF]', abs(float(vals.sum()) / p['flux'] - 1))
     # lattice offset by an integer vector: the same sum (grid position independence)
@@ -173,6 +356,13 @@ def _case_prf_sum(case):
         sh = int(rng.integers(-2, 3))
         vals2 = np.asarray(m(xx + sh, yy - sh), float)
         case.close(float(vals2.sum()), p['flux'], 'prf_lattice_sum', rtol=1e-8, mech=mech, shift=sh)
+    # degenerate call forms: empty and scalar coordinate input
+    if rng.random() < 0.2:
+        e = m.model(np.array([]), np.array([])) if not form['pform'].startswith('q_') else None
+        if e is not None:
+            case.check(np.shape(e) == (0,), 'empty_input_gives_empty_output', mech, shape=list(np.shape(e)))
+            case.note('axis_degenerate_empty_coordinates')
+    _unit_verdict(case, m, mech)
 
 
 def _case_prf_value(case):
@@ -182,29 +372,42 @@ def _case_prf_value(case):
     sx, sy = _sigmas(kind, p)
     n = 300
     span = 6.0 * max(sx, sy) + 1.5
+    form = _draw_form(case, kind)
+    if rng.random() < 0.2:
+        p['x_0'], p['y_0'] = _far(rng, p['x_0'], 2 ** 16), _far(rng, p['y_0'], 2 ** 16)
+        case.note('axis_position_far_from_origin')
     if rng.random() < 0.5:            # integer pixel grid
         h = int(min(np.ceil(span), 12))
         yy, xx = np.mgrid[-h:h + 1, -h:h + 1]
-        x, y = xx.ravel().astype(float), yy.ravel().astype(float)
+        x = xx.ravel().astype(float) + np.round(p['x_0'])
+        y = yy.ravel().astype(float) + np.round(p['y_0'])
     else:
         x = p['x_0'] + rng.uniform(-span, span, n)
         y = p['y_0'] + rng.uniform(-span, span, n)
-    case.params = dict(kind=kind, **p, npts=len(x))
+    case.params = dict(kind=kind, **p, npts=len(x), form=form)
     case.nontrivial = (p['x_0'], p['y_0']) != (0.0, 0.0)
-    m = _make(kind, p)
+    m = _make(kind, p, form)
     obs = np.asarray(m(x, y), float)
     exp = R.prf_gauss(x, y, p['flux'], p['x_0'], p['y_0'], sx, sy, p.get('theta', 0.0))
-    case.close(obs, exp, 'prf_vs_cdf_pixel_integral', rtol=1e-9, atol=2e-15 * p['flux'],
-               mech=_mech(kind, p))
+    # (a parameter converted to another unit and back differs by an ulp or two: with a centre far from the origin
+    # that is eps*|x_0| in the argument; the atol term covers it in proportion to the slope flux/sigma)
+    conv = 4e-16 * max(abs(p['x_0']), abs(p['y_0'])) / min(sx, sy) if form['pform'].startswith('q_') else 0.0
+    case.close(obs, exp, 'prf_vs_cdf_pixel_integral', rtol=1e-9, atol=(2e-15 + conv) * p['flux'],
+               mech=_mech(kind, p), form=form)
+    _unit_verdict(case, m, _mech(kind, p))
 
 
 def _case_psf_integral(case):
     rng = case.rng
     kind = PSFS[int(rng.integers(0, len(PSFS)))]
     p = _gen_params(rng, kind, wmax=20.0)
-    case.params = dict(kind=kind, **p)
+    form = _draw_form(case, kind, layouts=False)
+    if rng.random() < 0.15:
+        p['x_0'], p['y_0'] = _far(rng, p['x_0'], 2 ** 12), _far(rng, p['y_0'], 2 ** 12)
+        case.note('axis_position_far_from_origin')
+    case.params = dict(kind=kind, **p, form=form)
     case.nontrivial = (p['x_0'], p['y_0']) != (0.0, 0.0)
-    m = _make(kind, p)
+    m = _make(kind, p, form)
     fn = lambda x, y: m(x, y)  # noqa: E731
     F = p['flux']
     mech = _mech(kind, p)
@@ -231,7 +434,7 @@ def _case_psf_integral(case):
         exp = R.airy_encircled(F, rad, Rmax)
         # the closed form must itself approach F: 1 - EE(R) ~ 2/(pi u)
         case.dev('airy_outside_fraction', 1 - exp / F)
-    case.close(total, exp, 'psf_integral', rtol=1e-9, mech=mech, params=p)
+    case.close(total, exp, 'psf_integral', rtol=1e-9, mech=mech, params=p, form=form)
     # the same integral taken about a displaced origin (large disc) for Gaussians: independent of where we centre
     if kind in ('GaussianPSF', 'CircularGaussianPSF') and rng.random() < 0.3:
         sx, sy = _sigmas(kind, p)
@@ -240,6 +443,7 @@ def _case_psf_integral(case):
         edges = np.arange(0.0, 8.5 * smax + off + 2 * smin, 2.0 * smin)
         t2 = R.polar_integral(fn, p['x_0'] + off, p['y_0'] - off, edges, nphi=512, ngl=32)
         case.close(t2, F, 'psf_integral_offcentre', rtol=1e-9, mech=mech)
+    _unit_verdict(case, m, mech)
 
 
 def _case_shape(case):
@@ -250,11 +454,15 @@ def _case_shape(case):
     # dyadic centre so that x0 +- d is exact
     p['x_0'] = float(rng.integers(-512, 513)) / 64.0
     p['y_0'] = float(rng.integers(-512, 513)) / 64.0
+    form = _draw_form(case, kind, quantity='same')
+    if rng.random() < 0.25:
+        p['x_0'], p['y_0'] = _far(rng, p['x_0']), _far(rng, p['y_0'])       # still exactly representable
+        case.note('axis_position_far_from_origin')
     sx, sy = _sigmas(kind, p)
     scale = max(sx, sy)
-    case.params = dict(kind=kind, **p)
+    case.params = dict(kind=kind, **p, form=form)
     case.nontrivial = True
-    m = _make(kind, p)
+    m = _make(kind, p, form)
     mech = _mech(kind, p)
     F = p['flux']
     n = 200
@@ -282,17 +490,17 @@ def _case_shape(case):
     # linearity in flux
     k = float(rng.choice([2.0, 0.5, -1.0, 3.7, 1e-3, 12345.678]))
     p2 = dict(p, flux=F * k)
-    a2 = np.asarray(_make(kind, p2)(p['x_0'] + d, p['y_0'] + e), float)
+    a2 = np.asarray(_make(kind, p2, form)(p['x_0'] + d, p['y_0'] + e), float)
     case.close(a2, a * k, 'linear_in_flux', rtol=1e-14, atol=1e-300, mech=mech, k=k)
-    z = np.asarray(_make(kind, dict(p, flux=0.0))(p['x_0'] + d, p['y_0'] + e), float)
+    z = np.asarray(_make(kind, dict(p, flux=0.0), form)(p['x_0'] + d, p['y_0'] + e), float)
     case.check(bool(np.all(z == 0)), 'zero_flux_is_zero', mech)
     # setting the parameter on a live model == constructing with it
-    m.flux = F * k
+    m.set_flux(F * k)
     a3 = np.asarray(m(p['x_0'] + d, p['y_0'] + e), float)
     case.close(a3, a2, 'flux_setter_equals_constructor', mech=mech)
     # translation covariance by an exactly representable shift
     sh = float(rng.integers(-640, 641)) / 64.0
-    m2 = _make(kind, dict(p, x_0=p['x_0'] + sh, y_0=p['y_0'] - sh))
+    m2 = _make(kind, dict(p, x_0=p['x_0'] + sh, y_0=p['y_0'] - sh), form)
     a4 = np.asarray(m2(p['x_0'] + sh + d, p['y_0'] - sh + e), float)
     case.close(a4, a, 'translation_covariance', rtol=1e-13, atol=1e-300, mech=mech)
 
@@ -363,8 +571,9 @@ def _case_consistency(case):
         kind = PSFS[int(rng.integers(0, 4))]
         p = _gen_params(rng, kind)
         p.update(x_0=x0, y_0=y0, flux=F)
-        m = _make(kind, p)
-        case.params = dict(sub=sub, kind=kind, **p)
+        form = _draw_form(case, kind, layouts=False)
+        m = _make(kind, p, form)
+        case.params = dict(sub=sub, kind=kind, **p, form=form)
         mech = _mech(kind, p)
         peak = float(np.asarray(m(x0, y0)))
         ang = rng.uniform(0, 2 * np.pi)
@@ -373,13 +582,13 @@ def _case_consistency(case):
             pts = [(x0 + 0.5 * p['x_fwhm'] * np.cos(t), y0 + 0.5 * p['x_fwhm'] * np.sin(t)),
                    (x0 - 0.5 * p['y_fwhm'] * np.sin(t), y0 + 0.5 * p['y_fwhm'] * np.cos(t))]
         else:
-            fw = float(m.fwhm) if kind != 'CircularGaussianPSF' else p['fwhm']
+            fw = m.length(m.fwhm) if kind != 'CircularGaussianPSF' else p['fwhm']
             pts = [(x0 + 0.5 * fw * np.cos(ang), y0 + 0.5 * fw * np.sin(ang))]
         for (px, py) in pts:
             case.close(float(np.asarray(m(px, py))), 0.5 * peak, 'fwhm_is_full_width_at_half_maximum',
                        rtol=1e-9, mech=mech)
         if kind in ('GaussianPSF', 'CircularGaussianPSF'):
-            case.close(float(m.amplitude), peak, 'amplitude_is_peak_value', rtol=1e-13, mech=mech)
+            case.close(m.fluxval(m.amplitude), peak, 'amplitude_is_peak_value', rtol=1e-13, mech=mech)
             sx, sy = _sigmas(kind, p)
             case.close(peak, F / (2 * np.pi * sx * sy), 'peak_equals_textbook', rtol=1e-13, mech=mech)
             xs = x0 + rng.uniform(-5 * sx, 5 * sx, 100)
@@ -391,7 +600,8 @@ def _case_consistency(case):
                        mech=mech)
         if kind == 'AiryDiskPSF':
             zero = float(np.asarray(m(x0 + p['radius'] * np.cos(ang), y0 + p['radius'] * np.sin(ang))))
-            case.check(abs(zero) <= 1e-24 * peak, 'airy_first_zero_at_radius', mech, value=zero, peak=peak)
+            case.check(abs(zero) <= 1e-24 * peak, 'airy_first_zero_at_radius', mech, value=zero, peak=peak, form=form)
+        _unit_verdict(case, m, mech)
         return
     # rot90: theta -> theta+180 identical; theta+90 == swapped widths
     prf = rng.random() < 0.5
@@ -422,8 +632,49 @@ def _case_consistency(case):
 # ----------------------------------------------------------------------------------------
 # ImagePSF
 # ----------------------------------------------------------------------------------------
+def _arr_form(rng, a, note=None):
+    """(values as float64 C array, the object handed to the library): same numbers in another layout / dtype."""
+    k = rng.random()
+    form = 'plain'
+    if k < 0.5:
+        out = a
+    else:
+        form = ['fortran', 'strided', 'offset', 'bigendian', 'float32', 'int', 'transposed_view'][int(rng.integers(0, 7))]
+        if form == 'float32':
+            out = a.astype(np.float32)
+            a = out.astype(np.float64)
+        elif form == 'int':
+            sc = 1000.0 / max(float(np.max(np.abs(a))), 1e-300)
+            out = np.round(a * sc).astype(np.int64)
+            a = out.astype(np.float64)
+        elif form == 'fortran':
+            out = np.asfortranarray(a)
+        elif form == 'bigendian':
+            out = a.astype('>f8')
+        elif form == 'transposed_view':
+            out = np.ascontiguousarray(np.swapaxes(a, -1, -2)).swapaxes(-1, -2)
+        elif form == 'strided':
+            big = np.zeros(tuple(2 * n for n in a.shape))
+            big[(slice(None, None, 2),) * a.ndim] = a
+            out = big[(slice(None, None, 2),) * a.ndim]
+        else:
+            big = np.full(tuple(n + 3 for n in a.shape), -1.0)
+            big[(slice(2, -1),) * a.ndim] = a
+            out = big[(slice(2, -1),) * a.ndim]
+    if note is not None:
+        note('axis_data_layout_' + form)
+    return np.ascontiguousarray(a, dtype=np.float64), out
+
+
 def _gen_image(rng, smooth=None):
     ny, nx = int(rng.integers(4, 14)), int(rng.integers(4, 14))
+    k = rng.random()
+    if k < 0.1:
+        ny, nx = int(rng.integers(4, 6)), int(rng.integers(25, 41))          # strongly elongated
+    elif k < 0.2:
+        ny, nx = int(rng.integers(25, 41)), int(rng.integers(4, 6))
+    if rng.random() < 0.04:
+        return np.full((ny, nx), float(rng.uniform(0.1, 3)))                  # degenerate: constant image
     if smooth is None:
         smooth = rng.random() < 0.5
     if smooth:
@@ -451,8 +702,11 @@ def _os_pair(os_):
     return int(os_[0]), int(os_[1])
 
 
-def _gen_imagepsf_cfg(rng):
+def _gen_imagepsf_cfg(rng, note=None):
     data = _gen_image(rng)
+    if rng.random() < 0.3:
+        data = data * float(2.0 ** int(rng.integers(-40, 31)))                # magnitude of the array itself
+    data, data_in = _arr_form(rng, data, note)
     ny, nx = data.shape
     os_ = _gen_osamp(rng)
     k = int(rng.integers(0, 4))
@@ -465,8 +719,13 @@ def _gen_imagepsf_cfg(rng):
     fill = [0.0, float('nan'), -7.25, 3.0][int(rng.integers(0, 4))] if rng.random() < 0.6 else 0.0
     x0 = float(rng.uniform(-20, 20)) if rng.random() < 0.8 else float(rng.integers(-5, 6))
     y0 = float(rng.uniform(-20, 20)) if rng.random() < 0.8 else float(rng.integers(-5, 6))
-    flux = _logu(rng, 1e-2, 1e4) * (1 if rng.random() < 0.9 else -1)
-    return dict(data=data, oversampling=os_, origin=origin, fill_value=fill, x_0=x0, y_0=y0, flux=flux)
+    if rng.random() < 0.15:
+        x0, y0 = _far(rng, x0, 2 ** 9), _far(rng, y0, 2 ** 9)
+        if note is not None:
+            note('axis_position_far_from_origin')
+    flux = _flux(rng) * (1 if rng.random() < 0.9 else -1)
+    return dict(data=data, data_in=data_in, oversampling=os_, origin=origin, fill_value=fill, x_0=x0, y_0=y0,
+                flux=flux)
 
 
 def _image_ref(cfg, x, y, sp=None, params=None):
@@ -550,13 +809,14 @@ def _is_fill(o, fill):
 def _case_imagepsf(case):
     from photutils.psf import ImagePSF
     rng = case.rng
-    cfg = _gen_imagepsf_cfg(rng)
+    cfg = _gen_imagepsf_cfg(rng, case.note)
     data = cfg['data']
     ny, nx = data.shape
-    case.params = {k: (v if k != 'data' else list(v.shape)) for k, v in cfg.items()}
+    case.params = {k: (v if k not in ('data', 'data_in') else [list(v.shape), str(v.dtype), bool(v.flags.c_contiguous)])
+                   for k, v in cfg.items()}
     case.digest = core.arr_digest(data) + core.digest(case.params)
-    d_in = data.copy()
-    m = ImagePSF(data, flux=cfg['flux'], x_0=cfg['x_0'], y_0=cfg['y_0'], origin=cfg['origin'],
+    d_in = np.array(cfg['data_in'], copy=True)
+    m = ImagePSF(cfg['data_in'], flux=cfg['flux'], x_0=cfg['x_0'], y_0=cfg['y_0'], origin=cfg['origin'],
                  oversampling=cfg['oversampling'], fill_value=cfg['fill_value'])
     osy, osx = _os_pair(cfg['oversampling'])
     mech = {'model': 'ImagePSF', 'os_tuple': np.ndim(cfg['oversampling']) > 0, 'origin_given': cfg['origin'] is not None}
@@ -591,15 +851,15 @@ def _case_imagepsf(case):
              cfg['y_0'] + (-0.5 - origin[1]) / osy, cfg['y_0'] + (ny - 0.5 - origin[1]) / osy]
     case.close([float(xlo), float(xhi), float(ylo), float(yhi)], expbb, 'imagepsf_bounding_box_is_data_footprint',
                rtol=1e-12, atol=1e-12, mech=mech)
-    case.check(core.exact(data, d_in), 'inputs_unchanged', mech)
+    case.check(core.exact(np.asarray(cfg['data_in']), d_in), 'inputs_unchanged', mech)
 
 
 def _case_imagepsf_hist(case):
     from photutils.psf import ImagePSF
     rng = case.rng
-    cfg = _gen_imagepsf_cfg(rng)
+    cfg = _gen_imagepsf_cfg(rng, case.note)
     data = cfg['data']
-    case.params = {k: (v if k != 'data' else list(v.shape)) for k, v in cfg.items()}
+    case.params = {k: (v if k not in ('data', 'data_in') else [list(v.shape), str(v.dtype)]) for k, v in cfg.items()}
     mech = {'model': 'ImagePSF', 'history': True}
     sp = R.spline(data)
 
@@ -607,7 +867,9 @@ def _case_imagepsf_hist(case):
         return ImagePSF(data.copy(), flux=prm['flux'], x_0=prm['x_0'], y_0=prm['y_0'], origin=cfg['origin'],
                         oversampling=cfg['oversampling'], fill_value=cfg['fill_value'])
 
-    live = [(fresh(cfg), dict(flux=cfg['flux'], x_0=cfg['x_0'], y_0=cfg['y_0']))]
+    first = ImagePSF(cfg['data_in'], flux=cfg['flux'], x_0=cfg['x_0'], y_0=cfg['y_0'], origin=cfg['origin'],
+                     oversampling=cfg['oversampling'], fill_value=cfg['fill_value'])
+    live = [(first, dict(flux=cfg['flux'], x_0=cfg['x_0'], y_0=cfg['y_0']))]
     steps = []
     nsteps = int(rng.integers(3, 9))
     for _ in range(nsteps):
@@ -648,6 +910,11 @@ def _gen_grid_cfg(rng, degenerate=False):
         nxg, nyg = [(1, int(rng.integers(2, 4))), (int(rng.integers(2, 4)), 1), (1, 1)][int(rng.integers(0, 3))]
     else:
         nxg, nyg = int(rng.integers(2, 5)), int(rng.integers(2, 5))
+        k = rng.random()
+        if k < 0.2:
+            nxg, nyg = int(rng.integers(4, 7)), 2                            # nx >= ny + 2
+        elif k < 0.4:
+            nxg, nyg = 2, int(rng.integers(4, 7))                            # ny >= nx + 2
 
     def axis(n):
         if rng.random() < 0.4:
@@ -669,14 +936,24 @@ def _gen_grid_cfg(rng, degenerate=False):
     order = rng.permutation(len(pos))
     os_ = _gen_osamp(rng)
     fill = [0.0, float('nan'), -2.5][int(rng.integers(0, 3))] if rng.random() < 0.5 else 0.0
+    lay = ['plain', 'plain', 'plain', 'fortran', 'bigendian', 'strided'][int(rng.integers(0, 6))]
     return dict(xg=xg, yg=yg, shape=(ny, nx), epsf=epsf, order=[pos[i] for i in order], oversampling=os_,
-                fill_value=fill)
+                fill_value=fill, cube_layout=lay)
 
 
 def _build_grid(cfg, flux=1.0, x_0=0.0, y_0=0.0, via_helper=False):
     from astropy.nddata import NDData
     from photutils.psf import GriddedPSFModel
     cube = np.array([cfg['epsf'][p] for p in cfg['order']])
+    lay = cfg.get('cube_layout', 'plain')
+    if lay == 'fortran':
+        cube = np.asfortranarray(cube)
+    elif lay == 'bigendian':
+        cube = cube.astype('>f8')
+    elif lay == 'strided':
+        big = np.zeros(tuple(2 * n for n in cube.shape))
+        big[::2, ::2, ::2] = cube
+        cube = big[::2, ::2, ::2]
     if via_helper:
         # the documented helper: a list of ImagePSF models + their fiducial positions
         from photutils.psf import ImagePSF, grid_from_epsfs
@@ -796,10 +1073,13 @@ def _case_gridded(case, degenerate=False):
     cube_in = np.array([cfg['epsf'][p] for p in cfg['order']])
     case.params = dict(xg=cfg['xg'].tolist(), yg=cfg['yg'].tolist(), shape=list(cfg['shape']),
                        oversampling=cfg['oversampling'], fill_value=cfg['fill_value'])
-    flux = _logu(rng, 1e-2, 1e4)
+    flux = _flux(rng)
     via_helper = bool(rng.random() < 0.3) and not (cfg['fill_value'] != cfg['fill_value'])
     m = _build_grid(cfg, flux=flux, via_helper=via_helper)
     case.params['via_grid_from_epsfs'] = via_helper
+    case.note('axis_data_layout_' + cfg['cube_layout'])
+    case.note('axis_grid_shape_' + ('wide' if len(cfg['xg']) >= len(cfg['yg']) + 2 else
+                                   'tall' if len(cfg['yg']) >= len(cfg['xg']) + 2 else 'squarish'))
     mech0 = {'model': 'GriddedPSFModel', 'degenerate_grid': bool(degenerate)}
     # documented internal order: sorted by y then x, data follows the positions
     gx = np.asarray(m.grid_xypos, float)
@@ -838,7 +1118,7 @@ def _case_gridded_hist(case):
     splines = {p: R.spline(d) for p, d in cfg['epsf'].items()}
     case.params = dict(xg=cfg['xg'].tolist(), yg=cfg['yg'].tolist(), shape=list(cfg['shape']),
                        oversampling=cfg['oversampling'], fill_value=cfg['fill_value'])
-    flux = _logu(rng, 1e-2, 1e3)
+    flux = _flux(rng)
     live = [(_build_grid(cfg, flux=flux), dict(flux=flux, x_0=0.0, y_0=0.0))]
     visited = []
     steps = []
